@@ -83,7 +83,7 @@ int main(int argc, char **argv) {
         if (!fails) std::cout << "REPLAY-OK" << std::endl;
         return fails ? 1 : 0;
     }
-    if (o.thorough) { o.max_exh_n = 5; o.nrandom = 1500; o.shuffles = 3; } else { o.max_exh_n = 5; o.nrandom = 500; o.shuffles = 1; }
+    if (o.thorough) { o.max_exh_n = 6; o.nrandom = 6000; o.shuffles = 4; } else { o.max_exh_n = 5; o.nrandom = 500; o.shuffles = 1; }
     long exhausted = 0, tapes_total = 0;
     for_each_graph(o, [&](TGraph &t) {
         McbOracle opt = mcb_bruteforce(t);
